@@ -51,6 +51,59 @@ FORMATTING = ["width", "semantic", "cleanups", "smartquotes", "ellipses", "list_
 AUTO_PRESET = {"semantic": True, "cleanups": True, "smartquotes": True, "ellipses": True}
 SECTION = {**{k: "formatting" for k in FORMATTING}, **{k: "file-discovery" for k in SETTINGS if k not in FORMATTING}}
 
+# Bodies of config files for the file-search scenarios.  {w} is replaced by a width that identifies the file.
+# (label, TOML text, sets width?)  — a file that sets no width is still a config file: the upward search stops at it
+# and the built-in default applies.
+# pyproject.toml bodies that HAVE a [tool.flowmark] table (in any TOML spelling, with or without keys in it) ...
+PYPROJECT_WITH_TABLE = [
+    ("table+width", "[tool.flowmark]\nwidth = {w}\n", True),
+    ("table+width among other tools", '[project]\nname = "p"\n\n[tool.ruff]\nline-length = 100\n\n[tool.flowmark]\nwidth = {w}\n\n[tool.other]\nx = 1\n', True),
+    ("sub-table only", "[tool.flowmark.formatting]\nwidth = {w}\n", True),
+    ("inline table", "[tool]\nflowmark = {{ width = {w} }}\n", True),
+    ("quoted header", '[tool."flowmark"]\nwidth = {w}\n', True),
+    ("empty table", "[tool.flowmark]\n", False),
+    ("empty table with a comment", '[project]\nname = "p"\n\n[tool.flowmark]\n# use the flowmark defaults here\n', False),
+    ("empty inline table", "[tool]\nflowmark = {{}}\n", False),
+    ("empty table before another", "[tool.flowmark]\n\n[tool.other]\nwidth = {w}\n", False),
+    ("empty sub-table", "[tool.flowmark.formatting]\n", False),
+    ("table with another key", "[tool.flowmark]\nsemantic = false\n", False),
+]
+# ... and bodies that do NOT have one (the file is skipped and the search goes on).  Bodies in which `tool` or
+# `tool.flowmark` is not a table at all (`tool = 1`, `[tool]\nflowmark = 3`) are kept out: they are outside the
+# property text and the pinned flowmark raises on them (TypeError / AttributeError) instead of skipping the file.
+PYPROJECT_WITHOUT_TABLE = [
+    ("other tool", "[tool.other]\nx = 1\nwidth = {w}\n", False),
+    ("empty tool table", "[tool]\n", False),
+    ("top-level flowmark table", "[flowmark]\nwidth = {w}\n", False),
+    ("longer name", "[tool.flowmarkx]\nwidth = {w}\n", False),
+    ("name under another tool", "[tool.other.flowmark]\nwidth = {w}\n", False),
+    ("header in a comment", "# [tool.flowmark]\nwidth = {w}\n", False),
+    ("header in a string", '[project]\ndescription = "see [tool.flowmark]"\nwidth = {w}\n', False),
+    ("not TOML", "not toml [[[\n", False),
+    ("empty file", "", False),
+]
+# .flowmark.toml / flowmark.toml bodies
+STANDALONE_BODIES = [
+    ("width", "width = {w}\n", True),
+    ("sectioned width", "[formatting]\nwidth = {w}\n", True),
+    ("empty file", "", False),
+    ("comment only", "# flowmark defaults\n", False),
+    ("another key", "semantic = false\n", False),
+]
+KINDS = [".flowmark.toml", "flowmark.toml", "pyproject.toml"]
+DEFAULT_WIDTH = 88
+
+
+def config_body(rng, kind: str, qualifies: bool, w: int, plain: float = 0.0):
+    """A body for a config file of `kind` -> (label, text, width it sets or None).  `qualifies` only matters for
+    pyproject.toml.  With probability `plain` the first (ordinary) body is used."""
+    if kind == "pyproject.toml":
+        pool = PYPROJECT_WITH_TABLE if qualifies else PYPROJECT_WITHOUT_TABLE
+    else:
+        pool = STANDALONE_BODIES
+    label, text, sets = pool[0] if rng.random() < plain else rng.choice(pool)
+    return label, text.format(w=w), (w if sets else None)
+
 
 def norm(v):
     from enum import Enum
@@ -206,21 +259,22 @@ def oracle(ctx: Ctx) -> None:
                 dirs.append(cur)
             dirs[-1].mkdir(parents=True, exist_ok=True)
             widths = {}
+            bodies = []
             for li, dd in enumerate(reversed(dirs)):  # nearest first
                 has = [rng.random() < 0.35 for _ in range(3)]
                 sect = rng.random() < 0.6
                 for ki, kind in enumerate(kinds):
                     if has[ki]:
                         w = 20 + li * 3 + ki
-                        if kind == "pyproject.toml":
-                            (dd / kind).write_text(f"[tool.flowmark]\nwidth = {w}\n" if sect else "[tool.other]\nx = 1\n")
-                        else:
-                            (dd / kind).write_text(f"width = {w}\n")
-                        widths[(li, kind)] = w
+                        # half of the files are the ordinary `width = w` body, the rest is drawn from the body families
+                        label, text, sets = config_body(rng, kind, sect, w, plain=0.5)
+                        (dd / kind).write_text(text)
+                        widths[(li, kind)] = sets if sets is not None else DEFAULT_WIDTH
+                        bodies.append({"level": li, "file": kind, "body": label, "text": text})
                 levels.append((has[0], has[1], has[2], sect))
             (dirs[-1] / "doc.md").write_text("x\n")
             rc, rec, err = run_cli_recorded(["."], dirs[-1])
-            want = 88
+            want = DEFAULT_WIDTH
             for li, (a, b, c, s) in enumerate(levels):
                 if a:
                     want = widths[(li, kinds[0])]
@@ -231,15 +285,63 @@ def oracle(ctx: Ctx) -> None:
                 if c and s:
                     want = widths[(li, kinds[2])]
                     break
-            case_d = {"levels_nearest_first": levels}
-            ctx.count(["findfile", levels])
+            case_d = {"levels_nearest_first": levels, "files": bodies}
+            ctx.count(["findfile", levels, [b["body"] for b in bodies]])
             got = rec.get("reformat_files", {}).get("width")
             if got != want:
                 ctx.fail("NEAREST: width not taken from the nearest qualifying config file", case_d, {"effective": got, "expected": want})
         finally:
             shutil.rmtree(d, ignore_errors=True)
+    oracle_stop_at_nearest(ctx)
     ctx.rule("setting × {flag absent/given/given-with-default} × {config sets, not} × {--auto, not} × sampled "
              "{3 file kinds × flat/sectioned × kebab/snake × cwd/ancestor}; random directory chains for file precedence")
+
+
+def oracle_stop_at_nearest(ctx: Ctx) -> None:
+    """What makes a file "a config file" for the upward search: every body of the families above, as the NEARER of two
+    config files.  An outer directory holds an ordinary config file (width = 40 + kind index); an inner directory
+    holds the file under test.  If the inner file is a config file (any .flowmark.toml / flowmark.toml; a
+    pyproject.toml that has a [tool.flowmark] table, whatever is or is not in the table) the search stops there:
+    the width is the inner file's, or the built-in default when it sets none — never the outer file's.  If it
+    is a pyproject.toml without the table, the outer file decides."""
+    rng = ctx.rng
+    inner = [("pyproject.toml", True, b) for b in PYPROJECT_WITH_TABLE] + [("pyproject.toml", False, b) for b in PYPROJECT_WITHOUT_TABLE] \
+        + [(k, True, b) for k in KINDS[:2] for b in STANDALONE_BODIES]
+    for kind, is_config, (label, text, sets) in inner:
+        shapes = [(ok, gap, below) for ok in range(3) for gap in (1, 2) for below in (0, 1)]
+        if ctx.tier == "quick":
+            shapes = rng.sample(shapes, 1)
+        for outer_ki, gap, below in shapes:
+            d = Path(tempfile.mkdtemp(prefix="c16s_", dir="/tmp"))
+            try:
+                outer_w, inner_w = 40 + outer_ki, 60
+                (d / KINDS[outer_ki]).write_text(PYPROJECT_WITH_TABLE[0][1].format(w=outer_w) if outer_ki == 2 else f"width = {outer_w}\n")
+                idir = d
+                for i in range(gap):
+                    idir = idir / f"g{i}"
+                cwd = idir / "sub" if below else idir
+                cwd.mkdir(parents=True)
+                body = text.format(w=inner_w)
+                (idir / kind).write_text(body)
+                (cwd / "doc.md").write_text("x\n")
+                rc, rec, err = run_cli_recorded(["."], cwd)
+                if not is_config:
+                    want = outer_w
+                else:
+                    want = inner_w if sets else DEFAULT_WIDTH
+                case_d = {"outer": {"file": KINDS[outer_ki], "width": outer_w}, "inner": {"file": kind, "body": label, "text": body},
+                          "inner_dirs_below_outer": gap, "cwd_below_inner": below, "inner_is_config_file": is_config}
+                ctx.count(["stop-at-nearest", kind, label, outer_ki, gap, below], sample=(label == "empty table"))
+                ctx.bump(f"nearest-file body: {kind} {'with' if is_config else 'without'} table/{label}" if kind == "pyproject.toml"
+                         else f"nearest-file body: {kind}/{label}")
+                got = rec.get("reformat_files", {}).get("width")
+                if got != want:
+                    ctx.fail("NEAREST: the upward search did not stop at the nearest config file (or stopped at a pyproject.toml "
+                             "without a [tool.flowmark] table)", case_d, {"effective": got, "expected": want, "rc": rc, "stderr": err[:200]})
+            finally:
+                shutil.rmtree(d, ignore_errors=True)
+    ctx.rule("every config-file body family (pyproject.toml with / without a [tool.flowmark] table in several TOML spellings, "
+             "empty or keyless tables, empty standalone files) as the nearer of two config files × sampled {outer kind, distance, cwd below}")
 
 
 def tie_merge(ctx: Ctx) -> None:
@@ -302,12 +404,14 @@ def tie_findconfig(ctx: Ctx) -> None:
             for dd in reversed(dirs):
                 a, b, c = (rng.random() < 0.3 for _ in range(3))
                 s = rng.random() < 0.5
+                # bodies from the families above: the model only sees "exists" / "has the table", so every spelling
+                # of a (possibly empty) [tool.flowmark] table must be found and every other body skipped
                 if a:
-                    (dd / kinds[0]).write_text("width = 1\n")
+                    (dd / kinds[0]).write_text(config_body(rng, kinds[0], True, 1, plain=0.5)[1])
                 if b:
-                    (dd / kinds[1]).write_text("width = 2\n")
+                    (dd / kinds[1]).write_text(config_body(rng, kinds[1], True, 2, plain=0.5)[1])
                 if c:
-                    (dd / kinds[2]).write_text("[tool.flowmark]\nwidth = 3\n" if s else rng.choice(["[tool.x]\n", "not toml [[[", ""]))
+                    (dd / kinds[2]).write_text(config_body(rng, kinds[2], s, 3, plain=0.3)[1])
                 lv.append("".join("1" if x else "0" for x in (a, b, c, s)))
             # a sentinel level so the walk stops inside our tree
             (d.parent / "t_stop").mkdir(exist_ok=True)
